@@ -10,7 +10,7 @@ Fixpoint arg_beq (a b : arg) : bool :=
   match a, b with
   | ATermS x, ATermS y => ustr_eqb x y
   | ATermN n1 i1 f1, ATermN n2 i2 f2 => Bool.eqb n1 n2 && ustr_eqb i1 i2 && ou_beq f1 f2
-  | AVar x, AVar y | AHdr x, AHdr y | AHdrQ x, AHdrQ y | ARef x, ARef y => ustr_eqb x y
+  | AVar x, AVar y | AHdr x, AHdr y | AHdrQ x, AHdrQ y | ARef x, ARef y | ATermR x, ATermR y => ustr_eqb x y
   | AFun f1 l1, AFun f2 l2 =>
       ustr_eqb f1 f2 && (fix go (l1 l2 : list arg) : bool :=
                            match l1, l2 with [], [] => true | x :: r1, y :: r2 => arg_beq x y && go r1 r2 | _, _ => false end) l1 l2
@@ -39,6 +39,7 @@ Definition dots (s : ustring) : ustring := map (fun c => if c =? 46 then 31 else
 Fixpoint canon_arg (a : arg) : arg :=
   match a with
   | AVar s => AVar (dots s) | AHdr s => AHdr (dots s) | ARef s => ARef (dots s)
+  | ATermR s => ATermS (47 :: s ++ [47])       (* the Term built for a regex holds the text with its slashes: it looks like that string *)
   | AFun f l => AFun (dots f) ((fix go (l : list arg) : list arg := match l with [] => [] | x :: r => canon_arg x :: go r end) l)
   | AEq l r => AEq (canon_arg l) (canon_arg r)
   | other => other
